@@ -67,3 +67,21 @@ func VSetUploadState(p *Peer, interested, unchoking uint32, others int32) {
 func VAddRequested(p *Peer, i, b, l uint32) { p.requested = append(p.requested, Requested{i, b, l}) }
 func VFillWriter(p *Peer, n int)            { vFill(p, n) }
 func VSetPort(p *Peer, port uint32)         { p.Port = port }
+
+// VNewUploadPeer: a peer with the given interest / unchoke flags and an event queue that records
+// the commands it is sent.
+func VNewUploadPeer(interested, unchoking uint32, counter uint32) *Peer {
+	return &Peer{interested: interested, amUnchoking: unchoking, Counter: counter, Event: make(chan PeerEvent, 8), Done: make(chan struct{})}
+}
+func VDrainUnchokes(p *Peer) (unchoke, choke int) {
+	for len(p.Event) > 0 {
+		if e, ok := (<-p.Event).(PeerUnchoke); ok {
+			if e.Unchoke {
+				unchoke++
+			} else {
+				choke++
+			}
+		}
+	}
+	return
+}
